@@ -41,7 +41,9 @@ P      == Cases[pi]
 prog   == P.prog
 RawCfg == P.cfgs[ci]
 \* --wip (Configuration.setup_wip_mode): only scenarios tagged wip, stop at the first failure, stdout and logging not captured
-cfg    == IF RawCfg.wip THEN [RawCfg EXCEPT !.stop = TRUE, !.cap_out = FALSE, !.cap_log = FALSE] ELSE RawCfg
+\* setup_logging(level) called by before_all (RawCfg.setuplog # 0): that level replaces the configured one for capture
+Cfg1   == IF RawCfg.setuplog # 0 /\ ~RawCfg.dry THEN [RawCfg EXCEPT !.loglvl = RawCfg.setuplog] ELSE RawCfg
+cfg    == IF Cfg1.wip THEN [Cfg1 EXCEPT !.stop = TRUE, !.cap_out = FALSE, !.cap_log = FALSE] ELSE Cfg1
 faults == P.faults[fi]          \* <<a, b>>: the a-th and b-th hook invocations raise (0 = none)
 N      == Len(prog)
 Features == P.features
@@ -499,7 +501,7 @@ LogPass(lv, nm) == /\ lv >= cfg.loglvl
                       ELSE cfg.loginc = <<>> \/ \E i \in DOMAIN cfg.loginc : cfg.loginc[i] = nm
 \* the user's own root handler sees a record iff it is attached (with --logging-clear-handlers it is detached while a
 \* scenario captures logging) and the record reaches the root level (the capture handler's level while capturing, else WARNING)
-RootLvl == IF cfg.cap_log THEN cfg.loglvl ELSE IF cfg.rootlvl0 THEN 0 ELSE 30      \* (rootlvl0: before_all sets the root level to NOTSET)
+RootLvl == IF cfg.cap_log THEN cfg.loglvl ELSE IF cfg.setuplog # 0 THEN cfg.setuplog ELSE IF cfg.rootlvl0 THEN 0 ELSE 30      \* (rootlvl0: before_all sets the root level to NOTSET)
 UserAttached == ~(cfg.cap_log /\ cfg.logclear)
 WrLog(c, m, lv, nm) == LET c1 == IF cfg.cap_log /\ LogPass(lv, nm) THEN [c EXCEPT !.buf = Append(@, m)] ELSE c
                        IN IF UserAttached /\ lv >= RootLvl THEN [c1 EXCEPT !.ulog = Append(@, m)] ELSE c1
